@@ -92,6 +92,27 @@ def reader_runs(ctx: Ctx, fname: str, schema: Any, **kw: Any) -> List[C.CodecRun
     return cache[key][1]
 
 
+def says_exhausted(assumptions: Any) -> bool:
+    """does the run assume that a reader has no data left (`remaining_bits` compared with zero)?"""
+    for expr, val in assumptions:
+        if not (isinstance(expr, tuple) and len(expr) == 3):
+            continue
+        op, a, b = expr
+        if isinstance(b, tuple) and b[:1] == ("remaining",) and a == 0:
+            a, b = b, a
+            op = {"<": ">", ">": "<", "<=": ">=", ">=": "<="}.get(op, op)
+        if isinstance(a, tuple) and a[:1] == ("remaining",) and b in (0, 1):
+            if (op, b, bool(val)) in (("==", 0, True), ("!=", 0, False), ("<=", 0, True), (">", 0, False), ("<", 1, True), (">=", 1, False)):
+                return True
+    return False
+
+
+def complete_data_runs(ctx: Ctx, fname: str, schema: Any, **kw: Any) -> List[C.CodecRun]:
+    """the reader's runs on data that is not exhausted: what reading back a complete representation can do (C06).  Runs that
+    assume `remaining_bits == 0` belong to truncated input, which is C07's and C14's subject."""
+    return [r for r in reader_runs(ctx, fname, schema, **kw) if not says_exhausted(r.assumptions)]
+
+
 def only(runs: List[C.CodecRun], what: str) -> C.CodecRun:
     if len(runs) != 1:
         raise AnalysisError("%s: expected one abstract run, found %d" % (what, len(runs)))
